@@ -775,6 +775,10 @@ func checkMSMRejections(c *Ctx, rule string, A *Aff, hl *headerLemma, lay *layou
 				}
 			}
 			if kind == "" {
+				if A.Infeasible(r.Block()) {
+					c.OK(rule, label+":unreachable", r.Pos(), "defensive exit that can never be taken (its guard contradicts what is known at that point)")
+					continue
+				}
 				c.Fail(rule, label+":unlisted-rejection", r.Pos(), "refuted", "an MSM message is rejected for a reason that is not one of {header too short, not an MSM type, cell mask > 64, too short for the cell mask, wrong family, satellite overrun, signal overrun, continued message without a cell}: some well-formed message is rejected")
 				continue
 			}
